@@ -11,7 +11,9 @@ point from `chemical.Psat` and FRESH `thermo.Gamma/Phi/PCF` instances and handed
 Oracle (real objects only): residual of the defining equation with z/Σz, returned fractions normalised
 and equal to the normalised Raoult vector, single component = Chemical.Tsat/Psat, T→P→T and P→T→P,
 T_bubble ≤ T_dew, P_dew ≤ P_bubble, invariance under z ↦ k·z and under permutation of the chemical list,
-instance cache returns an instance built for exactly the requested (ordered) chemicals and package.
+instance cache returns an instance built for exactly the requested (ordered) chemicals and package; the caller's
+composition array is not modified; a call's result depends on the CURRENT content of the array it is given (histories
+that reuse one ndarray buffer, updated in place between calls on the same cached object — `buf` op).
 
 Tolerances (from the solvers' own: BubblePoint/DewPoint.T_tol = 1e-9 K, P_tol = 1e-3 Pa, ytol 5e-12 / 1e-9;
 Chemical.Tsat xtol 1e-6 K / ytol 1e-2 Pa):
@@ -34,7 +36,7 @@ RULE = ('systems of 1–5 chemicals drawn from Water, Ethanol, Methanol, Propano
         'Toluene under three packages (ideal γ; Dortmund γ; Dortmund γ + ideal-gas Poynting factor); compositions with '
         'zeros, traces (1e-9…1e-4) and unnormalised totals; per system 3–6 operations out of: point solve '
         '(4 methods, k ∈ {1e-3,1,1e3}), T→P→T / P→T→P round trip, bubble-vs-dew ordering at given T or P, '
-        'scaling z ↦ k·z, permutation of the chemical list, the same call under a second package; T in [max(260, Psat.Tmin, Tsat_i(5 kPa)), 480] K, '
+        'scaling z ↦ k·z, permutation of the chemical list, the same call under a second package, call histories on one BubblePoint/DewPoint pair through ONE float ndarray buffer overwritten / scaled in place between calls (same and alternating T/P specifications);  T in [max(260, Psat.Tmin, Tsat_i(5 kPa)), 480] K, '
         'P in [5e3, 3e6] Pa between the pure-component saturation pressures; non-trivial = at least one solve with '
         'N ≥ 2 components present; distinct = distinct (system, op list)')
 ASSUMPTIONS = [
@@ -186,6 +188,7 @@ class Run:
         z = np.asarray(z, float)
         n = len(ids)
         N = int((z > 0).sum())
+        z_before = z.copy()
         try:
             res = obj(z, T=spec) if method.endswith('P') else obj(z, P=spec)
         except ValueError as e:
@@ -193,7 +196,10 @@ class Run:
                 self.emit(self._pt_line(method, spec, spec, spec, 0., 0., 0., z, *[np.ones(n)] * 4), 'err noComponents')
                 return None
             raise
-        frac = np.asarray(res.y if which == 'B' else res.x, float)
+        if not np.array_equal(z_before, z):
+            self.fail(f'{method}:mutates-input', f'{method}{label} {ids}: the call changed the caller\'s composition array '
+                                                 f'from {z_before.tolist()} to {z.tolist()}')
+        frac = np.array(res.y if which == 'B' else res.x, float)
         T, P = float(res.T), float(res.P)
         val = P if method.endswith('P') else T
         zs = z.sum(); zn = z / zs
@@ -253,7 +259,7 @@ class Run:
                 rv_raw = z * K if which == 'B' else z / K
                 if abs(zs - 1) > 1e-9 and abs(1. - rv_raw.sum()) <= RES_TOL_MULTI * max(1., zs):
                     cause = ':solves-unnormalised-equation'      # root of the equation written with the raw z
-                elif (frac < 0).any():
+                elif (frac < 0).any() and not imm:
                     # the inner Wegstein loop on γ (dew) settled on a non-physical point: a negative mole fraction
                     cause = ':negative-fraction'
                 else:
@@ -277,7 +283,7 @@ class Run:
         self.emit(line, ans)
         kappa = g * c * psat / f
         return dict(val=val, frac=frac, T=T, P=P, kappa=kappa, ok=ok, single=single, uniq=uniq_flag(ids, pkg, z),
-                    z=z, zn=zn, psat=psat)
+                    z=z.copy(), zn=zn, psat=psat)
 
     @staticmethod
     def own_residual_diagnosis(obj, method, zn, T, P, frac):
@@ -385,6 +391,42 @@ def run_impl(case: Case) -> ImplResult:
             b = r.solve(method, spec, z * k, label=f'[k={k:g}]')
             r.same(method[-1], a, b, f'{method} {ids} z={z.tolist()} spec={spec!r}: z vs {k:g}·z', f'scale:{method}')
             r.tags.add(f'k={k:g}')
+        elif op == 'buf':
+            # a history on ONE BubblePoint / DewPoint object pair in which the caller reuses ONE float ndarray as the
+            # composition buffer, updating it in place between calls.  step = method:spec:<z,…> (overwrite in place) |
+            # method:spec:*k (scale in place) | method:spec:= (leave as is).  Every call is judged for the CURRENT
+            # content of the buffer; `*k` must return the previous root, `=` on the bubble/dew counterpart is ordered.
+            b = None
+            prev = None         # (method, spec, result)
+            for st in t[1].split('/'):
+                m, spec, zt = st.split(':')
+                spec = float(spec)
+                if zt == '=' and b is not None:
+                    how = 'keep'
+                elif zt.startswith('*') and b is not None:
+                    b *= float(zt[1:]); how = 'scale'
+                else:
+                    zv = parse_z(zt)
+                    if b is None or len(zv) != len(b): b = np.array(zv, float)
+                    else: b[:] = zv
+                    how = 'write'
+                res = r.solve(m, spec, b, label=f'[buffer:{how}]')
+                if res is not None and prev is not None and prev[2] is not None and prev[1] == spec:
+                    if (how == 'write' and prev[0] == m and not res['ok'] and prev[2]['ok'] and not res['single']
+                            and res['val'] == prev[2]['val'] and not np.allclose(res['zn'], prev[2]['zn'])):
+                        # diagnosis: bit-identical to the answer given for the buffer's previous content
+                        r.fail(f'history:{m}:returns-previous-result',
+                               f'{m} {ids} spec={spec!r}: after the composition buffer was overwritten in place with '
+                               f'{b.tolist()} the same object returned {res["val"]!r}, bit-identical to its answer for the '
+                               f'previous content {prev[2]["z"].tolist()} (a result remembered against an aliased array)')
+                    if how == 'scale' and prev[0] == m:
+                        r.same(m[-1], prev[2], res, f'{m} {ids} spec={spec!r}: buffer scaled in place by {zt[1:]}',
+                               f'scale:{m}')
+                    elif how == 'keep' and prev[0][-1] == m[-1] and prev[0][:3] != m[:3]:
+                        bub, dew = (prev[2], res) if m.startswith('dew') else (res, prev[2])
+                        r.order(m[-1], bub, dew, f'{PKG_NAMES[pkg]} {ids} z={b.tolist()} (shared buffer) at spec={spec!r}')
+                prev = (m, spec, res)
+            r.tags.add('buffer-history')
         elif op == 'xpkg':
             # the same chemicals under two packages inside one case: each must satisfy ITS package's equation
             method, spec, other, z = t[1], float(t[2]), int(t[3]), np.array(parse_z(t[4]))
@@ -545,11 +587,14 @@ def gen_case(rng, tier, force=None):
             spec = gen_spec(rng, ids, 'P' if kind == 'T' else 'T')
             if spec is None: continue
             ops.append(f'ord {kind} {spec!r} {zs(z)}')
-        elif r < 0.82:
+        elif r < 0.72:
             m = rng.choice(METHODS)
             spec = gen_spec(rng, ids, 'P' if m.endswith('T') else 'T')
             if spec is None: continue
             ops.append(f'scale {m} {spec!r} {rng.choice([1e-3, 1e3, 1e-3, 1e3, 2.0, 0.5])!r} {zs(z)}')
+        elif r < 0.80 and n > 1:
+            b = gen_buf(rng, ids)
+            if b: ops.append(b)
         elif r < 0.88:
             m = rng.choice(METHODS)
             spec = gen_spec(rng, ids, 'P' if m.endswith('T') else 'T')
@@ -563,6 +608,47 @@ def gen_case(rng, tier, force=None):
             p = list(range(n)); rng.shuffle(p)
             ops.append(f'perm {m} {spec!r} {",".join(map(str, p))} {zs(z)}')
     return Case(ops, {})
+
+
+def gen_buf(rng, ids, length=None):
+    """one `buf` op: a call history through one reused composition buffer"""
+    n = len(ids)
+    length = length or rng.randrange(3, 7)
+    steps = []
+    m = rng.choice(METHODS)
+    spec = gen_spec(rng, ids, 'P' if m.endswith('T') else 'T')
+    if spec is None: return None
+    specs = {m[-1]: spec}           # one specification per kind, so that repeated calls share it exactly
+    steps.append(f'{m}:{spec!r}:{zs(gen_z(rng, n))}')
+    while len(steps) < length:
+        r = rng.random()
+        if r < 0.5:                  # same method, same specification, new content (the memo-on-alias pattern)
+            steps.append(f'{m}:{spec!r}:{zs(gen_z(rng, n))}')
+        elif r < 0.65:               # the bubble/dew counterpart on the untouched buffer
+            m = ('dew' if m.startswith('bub') else 'bub') + m[-1]
+            steps.append(f'{m}:{spec!r}:=')
+        elif r < 0.78:               # scale in place
+            steps.append(f'{m}:{spec!r}:*{rng.choice([2.0, 0.5, 1000.0, 0.001])!r}')
+        else:                        # switch method / kind of specification
+            m = rng.choice(METHODS)
+            if m[-1] not in specs:
+                sp = gen_spec(rng, ids, 'P' if m.endswith('T') else 'T')
+                if sp is None: continue
+                specs[m[-1]] = sp
+            spec = specs[m[-1]]
+            steps.append(f'{m}:{spec!r}:{zs(gen_z(rng, n))}')
+    return 'buf ' + '/'.join(steps)
+
+
+def gen_buf_case(rng):
+    n = rng.choice([2, 2, 3, 4])
+    ids = rng.sample(NAMES, n)
+    pkg = rng.choice([0, 1, 1, 2])
+    ops = [f'sys {pkg} {",".join(ids)}']
+    for _ in range(rng.randrange(1, 4)):
+        b = gen_buf(rng, ids)
+        if b: ops.append(b)
+    return Case(ops, {'buffer': True}) if len(ops) > 1 else None
 
 
 def gen_perm_sweep(rng, n):
@@ -596,6 +682,10 @@ def generate(rng, tier, index, nworkers):
                 sp = gen_spec(rng, ids, 'P' if mm.endswith('T') else 'T')
                 if sp is not None: ops.append(f'scale {mm} {sp!r} {k!r} {zs(z)}')
         yield Case(ops, {'sweep': True})
+    # histories through one reused composition buffer (a fixed share, so every run has them for all four methods)
+    for _ in range(6 if tier == 'quick' else 40):
+        c = gen_buf_case(rng)
+        if c is not None: yield c
     for _ in range(n):
         yield gen_case(rng, tier)
 
@@ -622,6 +712,16 @@ def corpus():
         Case(['sys 0 Benzene,Toluene,Hexane', 'ord P 360.0 0.3,0.3,0.4', 'ord T 101325.0 0.3,0.3,0.4',
               'rt bub T 360.0 0.3,0.3,0.4', 'rt dew P 101325.0 0.3,0.3,0.4', 'perm bubT 101325.0 2,0,1 0.3,0.3,0.4',
               'perm dewP 360.0 1,2,0 1e-09,0.5,0.5']),
+        # one composition buffer reused across calls on the same objects (T-x-y sweep, in-place scaling, both objects)
+        Case([f'sys 1 {W}', 'buf bubT:101325.0:0.95,0.05/bubT:101325.0:0.1,0.9/bubT:101325.0:*2.0/dewT:101325.0:=/'
+                            'dewT:101325.0:0.6,0.4/bubT:101325.0:=',
+              'buf bubT:101325.0:0.8,0.2/bubT:101325.0:0.6,0.4/bubT:101325.0:0.4,0.6/bubT:101325.0:0.2,0.8',
+              'buf dewP:355.0:0.8,0.2/dewP:355.0:0.3,0.7/bubP:355.0:=/bubP:355.0:0.5,0.5/bubP:355.0:*1000.0/'
+              'bubT:101325.0:0.5,0.5/bubP:355.0:0.9,0.1/bubT:101325.0:0.9,0.1/dewT:101325.0:='],
+             {'buffer': True}),
+        Case(['sys 0 Benzene,Toluene,Hexane',
+              'buf bubT:80000.0:0.2,0.3,0.5/bubT:80000.0:0.6,0.3,0.1/dewT:80000.0:=/dewT:80000.0:0.1,0.1,0.8/'
+              'bubT:80000.0:=/bubT:80000.0:*0.001/dewP:350.0:0.3,0.3,0.4/dewP:350.0:0.7,0.2,0.1/bubP:350.0:=']),
         Case(['sys 0 Water,Ethanol,Methanol', 'xpkg bubP 350.0 1 0.3,0.3,0.4', 'xpkg dewT 101325.0 2 0.3,0.3,0.4',
               'xpkg bubT 101325.0 1 0.0,1.0,0.0']),
         Case(['sys 2 Methanol,Ethanol,Propanol', 'ord P 350.0 0.2,0.3,0.5', 'ord T 80000.0 0.2,0.3,0.5',
